@@ -110,3 +110,7 @@ pub mod gmsol_timelock {
 
 #[cfg(not(feature = "no-entrypoint"))]
 gmsol_utils::security_txt!("GMX-Solana Timelock Program");
+
+/// Verification hooks: additive re-exports of crate-private items for the /verif harness.
+#[cfg(feature = "verif-hooks")]
+pub mod verif;
